@@ -27,10 +27,13 @@ CHECK_DEADLOCK FALSE
 
 def mw_model(c, invs, props, twins, reqs='"r1", "r2"', writers='"w1", "w2"'):
     pl = ("PROPERTIES " + props) if props else ""
-    c.model_check("Middleware", MW_CFG % dict(reqs=reqs, writers=writers, bug="none", invs=invs, props=pl), tag="Middleware_" + c.pid)
+    thunks = [lambda: c.model_check("Middleware", MW_CFG % dict(reqs=reqs, writers=writers, bug="none", invs=invs, props=pl),
+                                    tag="Middleware_" + c.pid, workers=8)]
     for bug, expect in twins:
-        c.negative_twin("Middleware", MW_CFG % dict(reqs=reqs, writers=writers, bug=bug, invs=invs, props=pl),
-                        tag="Middleware_neg_" + bug, expect=expect)
+        thunks.append(lambda bug=bug, expect=expect: c.negative_twin(
+            "Middleware", MW_CFG % dict(reqs=reqs, writers=writers, bug=bug, invs=invs, props=pl),
+            tag="Middleware_neg_" + bug, expect=expect, workers=4))
+    c.parallel(thunks)
 
 
 def segment(evs, idx):
